@@ -337,7 +337,7 @@ namespace bluetoe {
                     case set_cumulative_value_opcode:
                         {
                             if ( write_size != 1 + 4 )
-                                return std::make_pair( error_codes::invalid_pdu, false );
+                                return malformed_request();
 
                             handler.set_cumulative_wheel_revolutions( bluetoe::details::read_32bit( value ) );
                             return std::make_pair( error_codes::success, false );
@@ -345,14 +345,14 @@ namespace bluetoe {
                     case request_supported_sensor_locations_opcode:
                         {
                             if ( write_size != 1 )
-                                return std::make_pair( error_codes::invalid_pdu, false );
+                                return malformed_request();
 
                             return std::make_pair( error_codes::success, true );
                         }
                     case update_sensor_location_opcode:
                         {
                             if ( write_size != 1 + 1 )
-                                return std::make_pair( error_codes::invalid_pdu, false );
+                                return malformed_request();
 
                             this->set_sensor_position( *value);
 
@@ -365,6 +365,15 @@ namespace bluetoe {
 
                 }
             private:
+                // A malformed request is answered with an ATT error and is not followed by an indication,
+                // thus there is no procedure in progress that csc_read_control_point() could finish.
+                std::pair< std::uint8_t, bool > malformed_request()
+                {
+                    procedure_in_progress_ = false;
+
+                    return std::make_pair( error_codes::invalid_pdu, false );
+                }
+
                 std::uint8_t current_opcode_;
                 bool         procedure_in_progress_;
             };
